@@ -590,3 +590,16 @@ Proof.
     split; [reflexivity|]. split; [|reflexivity]. rewrite (cut_str_short _ L). exact H. }
   rewrite (decode_encode_proved _ _ W). discriminate.
 Qed.
+
+(* ---------- the original name as a (package, entity) pair ---------- *)
+Lemma split_qname_text pkg ent : (forall x, In x pkg -> x <> 46) -> split_first_dot (qname_text pkg ent) = (pkg, ent).
+Proof.
+  unfold qname_text. induction pkg as [|x t IH]; intros H; cbn [app split_first_dot].
+  - reflexivity.
+  - destruct (N.eqb_spec x 46) as [E|E]; [exfalso; apply (H x); [left; reflexivity|exact E]|].
+    rewrite IH; [reflexivity|]. intros y Hy. apply H. right. exact Hy.
+Qed.
+
+(* a dot inside the package part moves to the entity (C02-F7b) *)
+Lemma split_qname_text_refuted : exists pkg ent, split_first_dot (qname_text pkg ent) <> (pkg, ent).
+Proof. exists [97; 46; 98], [99]. vm_compute. congruence. Qed.
